@@ -85,11 +85,12 @@ theorem chain_step {p : Params ℝ} {kCN k : Nat} {vs : List (Vial ℝ)} (h : VC
 /-- the initial ice of a supercooled vial is positive (a condition on the constants; C06) -/
 def JumpPos (p : Params ℝ) : Prop := ∀ T, T < p.c.T_eq_l → 0 < sigmaJump p.initIce p.c T
 
-/-- admissible trajectory (MONITORED on every real run; derived from C06's run invariant in
-`C12.adm_of_trajAdm`): in the stored columns — every element of the chain but the last, which is the
-state after the final step — the ice fraction is never negative and a vial that contains ice keeps some -/
+/-- **the vial keeps its ice** (the ONLY trajectory hypothesis of the C12 theorems; a condition on
+the vial's own stored row, see `adm_of_row`; monitored on every real run; follows from C06's run
+invariant, `C12.adm_of_trajAdm`): in the stored columns — every element of the chain but the last —
+a positive ice fraction stays positive.  (That the ice fraction is ZERO before the first ice is not
+assumed: it follows from the model, `zero_before_first_ice`.) -/
 structure Adm (vs : List (Vial ℝ)) : Prop where
-  nonneg : ∀ j, j + 1 < vs.length → 0 ≤ (nth vs j).sigma
   keeps : ∀ j m, j ≤ m → m + 1 < vs.length → 0 < (nth vs j).sigma → 0 < (nth vs m).sigma
 
 /-- a vial that has never nucleated -/
@@ -111,6 +112,22 @@ theorem liquid_prefix (hc : VChain p kCN k vs) (h0 : Fresh (nth vs 0)) (hJ : Jum
       rw [← hs, hz (j + 1) (le_refl _)] at this
       exact absurd this (lt_irrefl _)
     · exact ⟨h2.trans ihj.1, h3.trans ihj.2⟩
+
+/-- **before its first ice a vial is exactly liquid** (from the model, no trajectory hypothesis): a
+fresh vial has `σ = 0` in every column before the first column with `σ > 0`, because a liquid vial
+either stays at `σ = 0` or jumps to the positive initial ice (`JumpPos`). -/
+theorem zero_before_first_ice (hc : VChain p kCN k vs) (h0 : Fresh (nth vs 0)) (hJ : JumpPos p) (k0 : Nat)
+    (hfirst : ∀ j, j < k0 → ¬ 0 < (nth vs j).sigma) (j : Nat) (hj : j < k0) (hjl : j < vs.length) :
+    (nth vs j).sigma = 0 := by
+  induction j with
+  | zero => exact h0.1
+  | succ j ih =>
+    have hz := ih (by omega) (by omega)
+    rcases vstep_liquid (chain_step hc j hjl) hz with ⟨q, hq, hs, _, _⟩ | ⟨h1, _, _⟩
+    · have := hJ _ hq
+      rw [← hs] at this
+      exact absurd this (hfirst (j + 1) hj)
+    · exact h1
 
 /-- the step in which ice first appears is the nucleation step: what it records -/
 theorem first_ice (hc : VChain p kCN k vs) (j : Nat) (hj : j + 1 < vs.length)
@@ -144,7 +161,7 @@ theorem timeAt_succ (dt : ℝ) (k : Nat) : timeAt dt k + dt = timeAt dt (k + 1) 
 /-- **first ice**: if column `k0` is the first with `σ > 0` then from there on the vial's
 nucleation time is `t[k0]`, and its nucleation temperature is the supercooled temperature
 after the sensible update of step `k0 − 1` -/
-theorem tnuc_of_first_ice (hc : VChain p kCN k vs) (h0 : Fresh (nth vs 0)) (ha : Adm vs) (k0 m : Nat)
+theorem tnuc_of_first_ice (hc : VChain p kCN k vs) (h0 : Fresh (nth vs 0)) (hJ : JumpPos p) (ha : Adm vs) (k0 m : Nat)
     (hk0 : 0 < (nth vs k0).sigma) (hfirst : ∀ j, j < k0 → ¬ 0 < (nth vs j).sigma)
     (hkm : k0 ≤ m) (hm : m < vs.length) :
     0 < k0 ∧ (nth vs m).tNuc = some (timeAt p.dt (k + k0)) ∧
@@ -154,8 +171,7 @@ theorem tnuc_of_first_ice (hc : VChain p kCN k vs) (h0 : Fresh (nth vs 0)) (ha :
     · subst h; rw [h0.1] at hk0; exact absurd hk0 (lt_irrefl _)
     · exact h
   obtain ⟨j, rfl⟩ : ∃ j, k0 = j + 1 := ⟨k0 - 1, by omega⟩
-  have hz : (nth vs j).sigma = 0 :=
-    le_antisymm (not_lt.mp (hfirst j (by omega))) (ha.nonneg j (by omega))
+  have hz : (nth vs j).sigma = 0 := zero_before_first_ice hc h0 hJ (j + 1) hfirst j (by omega) (by omega)
   obtain ⟨q, hq, _, ht, hT⟩ := first_ice hc j (by omega) hz (ne_of_gt hk0)
   have keep := solid_keeps hc (j + 1) m hkm hm
     (fun j' h1 h2 => ne_of_gt (ha.keeps (j + 1) j' h1 (by omega) hk0))
@@ -165,11 +181,11 @@ theorem tnuc_of_first_ice (hc : VChain p kCN k vs) (h0 : Fresh (nth vs 0)) (ha :
   · rw [keep.2, hT]; simp
 
 /-- a vial all of whose columns up to `m` are ice-free has no record at `m` -/
-theorem no_record (hc : VChain p kCN k vs) (h0 : Fresh (nth vs 0)) (hJ : JumpPos p) (ha : Adm vs) (m : Nat)
+theorem no_record (hc : VChain p kCN k vs) (h0 : Fresh (nth vs 0)) (hJ : JumpPos p) (m : Nat)
     (hm : m + 1 < vs.length) (hz : ∀ j, j ≤ m → ¬ 0 < (nth vs j).sigma) :
     (nth vs m).tNuc = none ∧ (nth vs m).TNuc = none :=
   liquid_prefix hc h0 hJ m (by omega)
-    (fun j' h => le_antisymm (not_lt.mp (hz j' h)) (ha.nonneg j' (by omega)))
+    (fun j' h => zero_before_first_ice hc h0 hJ (m + 1) (fun j hj => hz j (by omega)) j' (by omega) (by omega))
 
 /-- every recorded nucleation time is `(k'+1)·dt` for a step `k'` that has been executed -/
 theorem tnuc_on_grid (hc : VChain p kCN k vs) (h0 : Fresh (nth vs 0)) (m : Nat) (hm : m < vs.length)
@@ -188,6 +204,33 @@ theorem tnuc_on_grid (hc : VChain p kCN k vs) (h0 : Fresh (nth vs 0)) (m : Nat) 
     · have := (vstep_solid st hl).1
       obtain ⟨k', hk', e⟩ := ih (by omega) τ (this ▸ h)
       exact ⟨k', by omega, e⟩
+
+/-- **a nucleation record never moves backwards** (no trajectory hypothesis): once `t_nucleation = a`
+is recorded, every later state records some `b ≥ a` (a vial that melted completely and nucleated
+again would carry the LATER time). -/
+theorem tnuc_mono (hc : VChain p kCN k vs) (h0 : Fresh (nth vs 0)) (hdt : 0 ≤ p.dt) (j m : Nat) (hjm : j ≤ m)
+    (hm : m < vs.length) (a : ℝ) (ha : (nth vs j).tNuc = some a) :
+    ∃ b, (nth vs m).tNuc = some b ∧ a ≤ b := by
+  induction m with
+  | zero =>
+    have : j = 0 := by omega
+    subst this; exact ⟨a, ha, le_refl _⟩
+  | succ m ih =>
+    rcases Nat.eq_or_lt_of_le hjm with h | h
+    · subst h; exact ⟨a, ha, le_refl _⟩
+    · obtain ⟨b, hb, hab⟩ := ih (by omega) (by omega)
+      have st := chain_step hc m hm
+      by_cases hl : (nth vs m).sigma = 0
+      · rcases vstep_liquid st hl with ⟨q, _, _, ht, _⟩ | ⟨_, h2, _⟩
+        · refine ⟨_, ht, ?_⟩
+          obtain ⟨k', hk', e⟩ := tnuc_on_grid hc h0 m (by omega) b hb
+          have : b ≤ timeAt p.dt (k + m) := by
+            rw [e]; simp only [timeAt, ofNat'_real]
+            have : ((k + k' + 1 : ℕ) : ℝ) ≤ ((k + m : ℕ) : ℝ) := by exact_mod_cast (by omega : k + k' + 1 ≤ k + m)
+            exact mul_le_mul_of_nonneg_right this hdt
+          linarith
+        · exact ⟨b, by rw [h2]; exact hb, hab⟩
+      · exact ⟨b, by rw [(vstep_solid st hl).1]; exact hb, hab⟩
 
 /-- every recorded nucleation temperature is supercooled -/
 theorem Tnuc_lt (hc : VChain p kCN k vs) (h0 : Fresh (nth vs 0)) (m : Nat) (hm : m < vs.length)
@@ -466,7 +509,7 @@ theorem nucleated_by_iff (inp : Inputs ℝ) (kCN i : Nat) (hi : i < inp.nVials) 
   · rintro ⟨τ, hτ, hle⟩
     cases hb : never 0 (sigmaRow inp kCN i)
     · obtain ⟨hk, hpos, hfirst⟩ := row_cross inp kCN i 0 hb
-      have tN := tnuc_of_first_ice hc h0 ha _ (NN inp) hpos hfirst (by omega) (by omega)
+      have tN := tnuc_of_first_ice hc h0 hJ ha _ (NN inp) hpos hfirst (by omega) (by omega)
       rw [nth_final, hτ, Nat.zero_add] at tN
       have e := Option.some.inj tN.2.1
       rw [e] at hle
@@ -476,9 +519,9 @@ theorem nucleated_by_iff (inp : Inputs ℝ) (kCN i : Nat) (hi : i < inp.nVials) 
       exfalso
       obtain ⟨N', hN'⟩ : ∃ N', NN inp = N' + 1 := ⟨NN inp - 1, by omega⟩
       have hz := row_never inp kCN i 0 hb
-      have nr := no_record hc h0 hJ ha N' (by omega) (fun j hj => hz j (by omega))
+      have nr := no_record hc h0 hJ N' (by omega) (fun j hj => hz j (by omega))
       have hz' : (nth (vtraj inp kCN i) N').sigma = 0 :=
-        le_antisymm (not_lt.mp (hz N' (by omega))) (ha.nonneg N' (by omega))
+        zero_before_first_ice hc h0 hJ (N' + 1) (fun j hj => hz j (by omega)) N' (by omega) (by omega)
       have st := chain_step hc N' (by omega)
       rw [← hN', nth_final] at st
       rcases vstep_liquid st hz' with ⟨q, _, _, ht, _⟩ | ⟨_, h2, _⟩
@@ -497,7 +540,7 @@ theorem nucleated_by_iff (inp : Inputs ℝ) (kCN i : Nat) (hi : i < inp.nVials) 
     have hle : crossIdx 0 (sigmaRow inp kCN i) ≤ m := by
       by_contra hcon
       exact hfirst m (by omega) hpos
-    have tN := tnuc_of_first_ice hc h0 ha _ (NN inp) hp0 hfirst (by omega) (by omega)
+    have tN := tnuc_of_first_ice hc h0 hJ ha _ (NN inp) hp0 hfirst (by omega) (by omega)
     rw [nth_final, Nat.zero_add] at tN
     exact ⟨_, tN.2.1, (timeAt_mono inp.p.dt hdt _ _).mpr hle⟩
 
@@ -640,5 +683,21 @@ theorem col_vial (inp : Inputs ℝ) (kCN i j : Nat) (hi : i < inp.nVials) (hj : 
   rw [nth_eq _ j (by rw [vtraj_length]; unfold NN at hj; omega)]
   simp only [vtraj, List.getElem_map]
   simp [vAt, hi', ← hSdef]
+
+
+/-- the vial's stored ROW keeps its ice: once an entry of `X_sigma[i, :]` is positive, all later ones are -/
+def StaysIce (row : List ℝ) : Prop :=
+  ∀ j m (hm : m < row.length) (hjm : j ≤ m), 0 < row[j]'(by omega) → 0 < row[m]
+
+/-- the trajectory hypothesis is a condition on the vial's own stored row -/
+theorem adm_of_row (inp : Inputs ℝ) (kCN i : Nat) (h : StaysIce (sigmaRow inp kCN i)) : Adm (vtraj inp kCN i) := by
+  have hlen : (vtraj inp kCN i).length = NN inp + 1 := vtraj_length inp kCN i
+  constructor
+  intro j m hjm hm hpos
+  have hmN : m < NN inp := by omega
+  have hjN : j < NN inp := by omega
+  rw [← sigmaRow_get inp kCN i m hmN]
+  rw [← sigmaRow_get inp kCN i j hjN] at hpos
+  exact h j m (by simpa using hmN) hjm hpos
 
 end Snow.FlakeStatsLemmas
